@@ -173,6 +173,8 @@ def check_proofs(report, prop, extra_targets=()):
         for file_rel, line, msg in dres.errors:
             broken.append({"file": file_rel, "line": line, "declaration": theorem_at(file_rel, line), "message": msg[:300]})
     names = property_theorems(prop)
+    if not names:
+        broken.append({"file": f"PycfModel/Props/{prop}.lean", "line": 0, "declaration": None, "message": "no property theorems found for this property"})
     discharged = 0
     axioms_seen = set()
     audit_rows = {}
